@@ -136,6 +136,19 @@ def afsp_jobs(Job, cfg=CFG_NDEBUG, tier="quick"):
             J("wildcard_char_to_ere", "h_wild", ["wildcard_char_to_ere"], replace=["afsp_up", "afsp_down"], cover=True)]
 
 
+EXTRACT_GROUP = ["byte_to_ascii7", "CatalogEntry_directory", "CatalogEntry_name", "extract_files_basename"]
+
+
+def extract_jobs(Job, cfg=CFG_NDEBUG, tier="quick"):
+    uw = ["--unwindset", "CatalogEntry_name.0:8,CatalogEntry_name_wrapped_for_contract_checking.0:8,cstr_rtrim.0:16,cstr_dir_dot_name.0:8,cstr_has_char.0:16,cstr_is.0:4",
+          "--unwinding-assertions"]
+    def J(name, entry, enforce, **kw):
+        return Job("D_%s_%s" % (name, cfg[0]), "harness/dfs_extract.c", entry, enforce=enforce, defines=list(cfg[1]),
+                   extract=ext(EXTRACT_GROUP), tier=tier, cbmc=uw, **kw)
+    return [J("catalog_entry_name", "h_name", ["CatalogEntry_name"], cover=True),
+            J("extract_files_basename", "h_basename", ["extract_files_basename"], cover=True)]
+
+
 DFS_TRUSTED = [
     "engine/cxx2c.py: the verified text is the function body extracted from /repo on every run; rules fired and SHA-256 of the source range are in coverage.jobs[].extracted",
     "models/dfs_model.h: DataAccess::read_block as a deterministic partial function with a call log; std::function visitors as monitored calls; "
